@@ -26,6 +26,7 @@ EXPLANATION = (
     "sequences.")
 
 RULES = {
+    "C05-XC": "(thorough) decision tables of the configuration-independent functions of this property are identical in every build configuration",
     "C05-E1": "every FALSE return of a typed reader has queued an error on its path, hands on a failing callee's result, or is the licensed absent-optional case",
     "C05-E2": "cause -> error-code tables of SCPI_Parameter and of the numeric readers equal the specification; numeric siblings agree",
     "C05-E3": "processCommand: -200 iff handler failed silently; -108 iff unread data and no error; returns FALSE iff one of these or cmd_error",
@@ -122,14 +123,28 @@ class TypeSets:
         return cur
 
 
+def conv_call_of(ps, atom):
+    """the converter call whose result `atom` (X > 0) tests: X is the call itself or a local that holds it"""
+    if atom.k != "BinaryOperator" or atom.get("op") != ">" or C.const_of(atom.child(1)) != 0:
+        return None
+    x = atom.child(0).strip_all_casts()
+    if x.k == "CallExpr":
+        return x
+    if x.k == "DeclRefExpr":
+        v = ps.env.get(x["decl"]["name"])
+        if v is not None and v.kind in ("call", "callres") and v.node is not None:
+            return v.node
+    return None
+
+
 def conv_total(spec, prog, ps, tset, ts):
     """is this silent-FALSE path infeasible because its failing conversion cannot fail?"""
     for a, pol in ps.facts:
         if isinstance(pol, tuple) or pol is not False:
             continue
         if a.k == "BinaryOperator" and a.get("op") == ">" and C.const_of(a.child(1)) == 0:
-            call = a.child(0).strip_all_casts()
-            if call.k != "CallExpr":
+            call = conv_call_of(ps, a)
+            if call is None:
                 continue
             base = C.const_of(K.arg(call, 2)) if call.get("nargs", 0) >= 3 else None
             for row in spec["conversion_total"]["rows"]:
@@ -230,8 +245,8 @@ def rule_e1(ck, prog, S, spec, ts):
         conv = None
         for a, pol in ps.facts:
             if not isinstance(pol, tuple) and pol is False and a.k == "BinaryOperator" and a.get("op") == ">":
-                c = a.child(0).strip_all_casts()
-                if c.k == "CallExpr":
+                c = conv_call_of(ps, a)
+                if c is not None:
                     conv = "%s,base%s" % (c.get("callee"), C.const_of(K.arg(c, 2)) if c.get("nargs", 0) >= 3 else "")
         key = (fn.name, conv or "return-false")
         per.setdefault(key, []).append((node, ps, tset, via))
@@ -422,7 +437,7 @@ def rule_e4_e5(ck, prog, S):
     pg = S.pg(parse)
     det = K.ordinal_sites(list(parse.calls("scpiParser_detectProgramMessageUnit")))
     rfalse = [n for n, t in C.stores(parse) if t.get("path") == "result" and n.get("op") == "=" and C.const_of(n.child(1)) == 0]
-    for i, c in enumerate(K.ordinal_sites([c for c in parse.calls() if c.get("callee") in PUSH])):
+    for i, c in enumerate(K.ordinal_sites([x[0] for x in K.effect_sites(prog, S, parse, lambda c_: c_.get("callee") in PUSH)])):
         st = K.site(parse, "push->result=FALSE", i)
         reach = pg.reachable([pg.after(c)], blocked_edge=lambda e: e.kind == "elem" and e.node in rfalse)
         if pg.exit in reach or (det and pg.before(det[0]) in reach):
@@ -501,7 +516,7 @@ def rule_e4_e5(ck, prog, S):
         elif inv_edges:
             ck.violated("C05-E5", st, K.loc(parse, c), "a unit marked invalid by the scanner can reach a handler")
     # -101 pushed on the invalid edge
-    p101 = [c for c in parse.calls() if c.get("callee") in PUSH and push_code(c) == -101]
+    p101 = [x[0] for x in K.effect_sites(prog, S, parse, lambda c_: c_.get("callee") in PUSH and push_code(c_) == -101)]
     st = K.site(parse, "invalid-unit-queues-101", 0)
     ok = False
     for c in p101:
@@ -647,6 +662,8 @@ def run(ck, fb, tier):
         rule_e7(ck, prog, S)
         rule_e8(ck, prog, S, spec, ts)
     ck.trust("spec/param_errors.json (error codes per cause, conversions that cannot fail, licensed silent case)")
+    if tier == "thorough":
+        K.cross_config(ck, fb, "C05-XC", ['SCPI_Parameter', 'ParamSignUInt32', 'ParamSignUInt64', 'SCPI_ParamFloat', 'SCPI_ParamDouble', 'SCPI_ParamBool', 'SCPI_ParamChoice', 'SCPI_ParamToChoice', 'processCommand', 'SCPI_ParamNumber'])
 
 
 TECHNIQUE = ("static analysis: decision tables extracted by exhaustive CFG path enumeration with constant / call-result "
